@@ -7,8 +7,12 @@ package main
 //   smclient redial n=<k> => ok=<dials that returned a usable connection>/<k>
 
 import (
+	"crypto/tls"
+	"encoding/hex"
 	"fmt"
+	"net"
 	"strconv"
+	"strings"
 	"sync/atomic"
 	"time"
 
@@ -87,4 +91,65 @@ func execSMClientRedial(toks []string) string {
 func init() {
 	executors["smserver many"] = execSMServerMany
 	executors["smclient redial"] = execSMClientRedial
+}
+
+// smserver tlscer cfg=<k> segs=<hex of one CER>: the state machine behind a TLS listener. That
+// the transport is encrypted changes nothing in how a CER is judged (C11): the events are those of
+// `smserver hist` for the same bytes.
+func execSMServerTLS(toks []string) string {
+	cfgS, _ := kvGet(toks, "cfg")
+	segs, _ := kvGet(toks, "segs")
+	cfgK, _ := strconv.Atoi(cfgS)
+	cer, err := hex.DecodeString(segs)
+	if err != nil {
+		return "badinput"
+	}
+	tcfg := acceptTLS()
+	if tcfg == nil {
+		return "err"
+	}
+	machine := sm.New(settingsMenu(cfgK))
+	go func() {
+		for range machine.ErrorReports() {
+		}
+	}()
+	l := &scriptListener{ch: make(chan acceptRes, 2)}
+	srv := &diam.Server{Handler: machine, Dict: dict.Default}
+	done := make(chan error, 1)
+	go func() { done <- srv.Serve(tls.NewListener(l, tcfg)) }()
+	sc, cc := net.Pipe()
+	l.ch <- acceptRes{c: sc}
+	tc := tls.Client(cc, &tls.Config{InsecureSkipVerify: true})
+	cc.SetDeadline(time.Now().Add(2 * time.Second))
+	if err := tc.Handshake(); err != nil {
+		return "tls-handshake-failed"
+	}
+	cc.SetDeadline(time.Time{})
+	tc.Write(cer)
+	var evs []string
+	end := "open"
+	for {
+		cc.SetReadDeadline(time.Now().Add(500 * time.Millisecond))
+		m, err := diam.ReadMessage(tc, dict.Default)
+		if err != nil {
+			if ne, ok := err.(net.Error); !(ok && ne.Timeout()) && !strings.Contains(err.Error(), "timeout") {
+				evs = append(evs, "C")
+				end = "closed"
+			}
+			break
+		}
+		evs = append(evs, "W:"+showHdr(m.Header)+showAVPs(m.AVP))
+	}
+	tc.Close()
+	sc.Close()
+	l.ch <- acceptRes{err: acceptPermErr{}}
+	select {
+	case <-done:
+	case <-time.After(time.Second):
+	}
+	return strings.Join(append(evs, "end="+end), " ")
+}
+
+func init() {
+	executors["smserver tlscer"] = execSMServerTLS
 }
